@@ -159,9 +159,14 @@ class MessageAny(TlbScheme):
         builder = Builder().store_cell(self.info.serialize())
         if self.init:
             builder.store_bit(1)  # maybe true
-            if len(self.init.serialize().bits) <= (builder.available_bits - 2) and len(self.init.serialize().refs) <= builder.available_refs:
+            init_cell = self.init.serialize()
+            bits_after = builder.available_bits - 1 - len(init_cell.bits)  # after the Either bit and an inline init
+            refs_after = builder.available_refs - len(init_cell.refs)
+            # inline only if the body then still has a place: inline next to it, or one reference left for it
+            body_ok = refs_after >= 1 or (len(self.body.bits) <= bits_after - 1 and len(self.body.refs) <= refs_after)
+            if bits_after >= 1 and refs_after >= 0 and body_ok:
                 builder.store_bit(0)  # Either left
-                builder.store_cell(self.init.serialize())
+                builder.store_cell(init_cell)
             else:
                 builder.store_bit(1)  # Either right
                 builder.store_ref(self.init.serialize())
